@@ -153,7 +153,7 @@ where
     let method = case["method"].as_str().unwrap().to_string();
     // closure calls in order, for the design-level trace of newton(): kind, argument, value (F) or matrix rows (J)
     let calls: RefCell<Vec<Value>> = RefCell::new(vec![]);
-    let trace = method == "newton";
+    let trace = method == "newton" || method == "secant";
     let r = std::panic::catch_unwind(std::panic::AssertUnwindSafe(|| {
         let f = |x: &[f64]| {
             *nf.borrow_mut() += 1;
